@@ -496,3 +496,21 @@ func (s *Sim) MarkRoot() { s.rootGid = goid() }
 // decision (used to make the case part of the explored-interleaving measure
 // in scenarios whose diversity lies in scripts rather than schedules).
 func (s *Sim) Note(label string) { s.record(label, label) }
+
+// ParkedUnsafe returns the parked tasks without sorting; for observers that
+// run on a task's goroutine while every other task is parked.
+//
+//go:norace
+func (s *Sim) ParkedUnsafe() []*Task {
+	raceDisable()
+	defer raceEnable()
+	s.mu.Lock()
+	defer s.mu.Unlock()
+	var out []*Task
+	for i := 0; i < s.ntasks; i++ {
+		if t := s.tasks[i]; t.parked && !t.done {
+			out = append(out, t)
+		}
+	}
+	return out
+}
